@@ -95,17 +95,31 @@ class Group:
         return self._rec(desc, "proved" if cond else "violation", detail=detail, time=0.0, structural=True,
                          replay_kind="structural")
 
-    def eq(self, desc, lhs, rhs, assumptions=(), tol=None, timeout_ms=None, T=None):
+    def eq(self, desc, lhs, rhs, assumptions=(), tol=None, timeout_ms=None, T=None, cases=()):
         """obligation: lhs == rhs (pytrees of object arrays) for all values satisfying the assumptions"""
         from . import solve
         goal = solve.eq_trees(lhs, rhs, tol)
-        return self.holds(desc, goal, assumptions, timeout_ms=timeout_ms, pairs=(lhs, rhs), T=T, tol=tol)
+        return self.holds(desc, goal, assumptions, timeout_ms=timeout_ms, pairs=(lhs, rhs), T=T, tol=tol, cases=cases)
 
-    def holds(self, desc, goal, assumptions=(), timeout_ms=None, pairs=None, T=None, tol=None):
+    def holds(self, desc, goal, assumptions=(), timeout_ms=None, pairs=None, T=None, tol=None, cases=()):
         from . import solve
         import z3
+        import itertools
         assum = list(self.assumptions) + list(assumptions)
         self._nontrivial.add(desc)
+        cases = [c for c in cases if z3.is_expr(c) and not z3.is_true(c) and not z3.is_false(c)]
+        if cases and self.replay is None:
+            # case split on Boolean conditions (e.g. Cond branches): the conjunction of the cases is exhaustive
+            worst = None
+            for combo in itertools.product([True, False], repeat=len(cases)):
+                extra = [c if b else z3.Not(c) for c, b in zip(cases, combo)]
+                r = self.holds(desc + "", goal, list(assumptions) + extra, timeout_ms=timeout_ms, pairs=pairs, T=T, tol=tol)
+                if r["verdict"] != "proved":
+                    return r
+                self.records.pop()
+                worst = r if worst is None or r.get("time", 0) > worst.get("time", 0) else worst
+            r = self._rec(desc, "proved", time=worst.get("time", 0), detail=f"case split over {len(cases)} condition(s)")
+            return r
         if self.replay is not None:
             return self._replay_numeric(desc, goal, assum, pairs, tol)
         if z3.is_false(z3.simplify(goal)) and pairs is not None and not self._structure_ok(pairs):
@@ -159,11 +173,44 @@ class Group:
             return self._rec(desc, "inconclusive", time=round(res.time, 3),
                              detail=f"sat, but the encoding does not match the real run at the model ({detail_real}): encoder problem")
         if num_ok:
-            return self._rec(desc, "inconclusive", time=round(res.time, 3),
-                             detail=f"sat model does not reproduce numerically ({detail}): artefact of an uninterpreted function")
+            env2, detail2 = self._numeric_search(goal, assum, pairs, env, tol)
+            if env2 is None:
+                return self._rec(desc, "inconclusive", time=round(res.time, 3),
+                                 detail=f"sat model does not reproduce numerically ({detail}): artefact of an uninterpreted function")
+            env, detail = env2, detail2 + " (witness found by numeric search after the solver's sat verdict)"
+            ok_real, detail_real = self.validate_traces(env)
+            if not ok_real:
+                return self._rec(desc, "inconclusive", time=round(res.time, 3), detail=f"numeric witness but encoding mismatch: {detail_real}")
         path = self._write_replay(desc, env, detail)
         return self._rec(desc, "violation", time=round(res.time, 3), detail=detail, replay=path, replay_kind="model",
                          env={k: env[k] for k in list(env)[:40]})
+
+    def _numeric_search(self, goal, assum, pairs, env0, tol, tries=300):
+        """the solver said sat but its model relies on an arbitrary interpretation of Log/Exp/...: look for a
+        witness under the TRUE meaning of those functions (needed to replay on the real code)"""
+        from . import concrete
+        import z3
+        rng = np.random.default_rng(self.seed + 17)
+        names = list(env0)
+        for t in range(tries):
+            env = {}
+            for k in names:
+                v = env0[k]
+                if isinstance(v, bool):
+                    env[k] = bool(rng.integers(0, 2))
+                elif isinstance(v, int):
+                    env[k] = int(rng.integers(0, 3))
+                else:
+                    env[k] = float(np.float32(rng.uniform(-2.0, 2.0) if rng.random() < 0.7 else rng.uniform(0.05, 0.95)))
+            try:
+                if not all(bool(concrete.numeval(a, env)) for a in assum):
+                    continue
+                ok, detail = self._numeric_goal(goal, pairs, env, tol)
+            except Exception:
+                continue
+            if not ok:
+                return env, detail
+        return None, ""
 
     def _numeric_goal(self, goal, pairs, env, tol):
         from . import concrete, symjax as sj
